@@ -93,6 +93,14 @@ func nilHandlers(in *kit.Instance, nilResult bool) {
 		}
 		return []mcp.ResourceContents{}, nil
 	})
+	// the single-content registration: its handler hands back one ResourceContents, so "nothing" is a nil interface
+	// (nil error) when nilResult is set, and an empty text otherwise
+	in.RegisterResource(&mcp.Resource{URI: "bare://single", Name: "bare-single"}, func(ctx context.Context, req *mcp.ReadResourceRequest) (mcp.ResourceContents, error) {
+		if nilResult {
+			return nil, nil
+		}
+		return mcp.TextResourceContents{URI: "bare://single"}, nil
+	})
 	h := func(ctx context.Context, req *mcp.ReadResourceRequest) ([]mcp.ResourceContents, error) {
 		return nil, nil
 	}
@@ -160,6 +168,7 @@ func sparseRequests(ids *gen.IDGen) []gen.Req {
 		mk("tools/call|bare", "tools/call", `{"name":"bare"}`),
 		mk("prompts/get|bare", "prompts/get", `{"name":"bare"}`),
 		mk("resources/read|bare", "resources/read", `{"uri":"bare://r"}`),
+		mk("resources/read|bare-single", "resources/read", `{"uri":"bare://single"}`),
 		mk("resources/read|template", "resources/read", `{"uri":"tmpl://7"}`),
 	}
 }
